@@ -265,6 +265,7 @@ func procC17(t *Target, tier string, r *Result) {
 		r.Transitions++
 		if res.Panicked {
 			r.outcome("from/panic")
+			r.violate("from/panic", "custom", "CopyFrom panics on an object with custom attributes: "+res.Panic, w)
 			return
 		}
 		var want []hookExpect
@@ -350,6 +351,7 @@ func procC17(t *Target, tier string, r *Result) {
 		r.Transitions++
 		if res.Panicked {
 			r.outcome("to/panic")
+			r.violate("to/panic", "custom", "CopyTo panics on a value with custom fields: "+res.Panic, w)
 			return o, false
 		}
 		got := callsOf("CopyTo")
